@@ -194,6 +194,13 @@ where
         let n = pixel_count(len, bpp);
         let mut idxs: Vec<usize> = if len <= max_len { (0..n + 4).collect() } else { vec![0, 1, 127, 128, 254, 255, 256, 257, 258, n / 2, n.saturating_sub(2), n.saturating_sub(1), n, n + 1, n + 3] };
         idxs.extend([n + 17, usize::MAX / 8, usize::MAX / 4 + 1, usize::MAX / 2 + 1, usize::MAX - 1, usize::MAX]);
+        // indices whose byte offset index * bytes_per_pixel wraps around to a small value
+        for bytes in [2u128, 3, 4] {
+            for k in 1..bytes {
+                let base = (((k << 64) + bytes - 1) / bytes) as usize;
+                idxs.extend([base, base + 1, base + 2]);
+            }
+        }
         for i in idxs {
             for bg in 0..4 {
                 cases.push((len, i, bg));
